@@ -23,6 +23,9 @@ type LocalAssignStmt struct {
 
 	Names []string
 	Exprs []Expr
+	// LocalFunction is set for `local function Name funcbody`: Name is in scope inside the body (the function can call
+	// itself), unlike `local Name = function … end`, whose body sees the outer Name
+	LocalFunction bool
 }
 
 type FuncCallStmt struct {
